@@ -57,6 +57,21 @@ def one_run(args):
         import pandas as pd
         names = {"int": [7 * (n - i) for i in range(n)], "tuple": [("s", i % 2, i) for i in range(n)], "str": [f"v{chr(100 - i)}" for i in range(n)]}[stratum[3]]
         arg = pd.DataFrame(x.copy(), columns=pd.Index(names, tupleize_cols=False))
+    if isinstance(stratum, tuple) and stratum[0] == "structure" and stratum[3] in ("ndarray", "str") and seed % 2:
+        # the caller's buffer (array or frame) analysed once with other numbers (white noise) and then refilled in place with the planted system
+        import contextlib, io
+        from causationentropy import discover_network as _dn
+        other = rng.standard_normal(x.shape)
+        if hasattr(arg, "iloc"):
+            arg.iloc[:, :] = other
+        else:
+            arg[:] = other
+        with contextlib.redirect_stdout(io.StringIO()):
+            _dn(arg, method=method, information=info, max_lag=L, n_shuffles=4)
+        if hasattr(arg, "iloc"):
+            arg.iloc[:, :] = x
+        else:
+            arg[:] = x
     o = DC.observe(arg, None, method=method, information=info, max_lag=L, n_shuffles=nsh, k_means=5)
     if "error" in o:
         return {"error": o["error"], "seed": seed}
